@@ -273,6 +273,15 @@ func runCheck(prop, tier string, seed int, only string, workers int, solver stri
 	replayer := &replayer{prop: prop}
 	defer replayer.cleanup()
 
+	// expand all job instances; tsgen jobs (single-threaded solver runs) are
+	// executed concurrently, symgo jobs (16 workers each) one after the other
+	type pending struct {
+		inst instance
+		js   JobSpec
+		jr   *jobResult
+		done chan struct{}
+	}
+	var all []*pending
 	for _, js := range spec.Jobs {
 		if js.ThoroughOnly && tier != "thorough" {
 			continue
@@ -281,12 +290,30 @@ func runCheck(prop, tier string, seed int, only string, workers int, solver stri
 			if only != "" && !strings.Contains(inst.name, only) {
 				continue
 			}
+			all = append(all, &pending{inst: inst, js: js, done: make(chan struct{})})
+		}
+	}
+	sem := make(chan struct{}, maxInt(workers/2, 1))
+	for _, pd := range all {
+		if pd.js.Engine == "tsgen" {
+			go func(pd *pending) {
+				sem <- struct{}{}
+				pd.jr = runTsgenJob(prog, pd.inst, tier, workers, solver, replayer, verbose)
+				<-sem
+				close(pd.done)
+			}(pd)
+		}
+	}
+	for _, pd := range all {
+		js, inst := pd.js, pd.inst
+		{
 			var jr *jobResult
 			switch js.Engine {
 			case "", "symgo":
 				jr = runSymgoJob(prog, inst, tier, workers, solver, replayer, verbose)
 			case "tsgen":
-				jr = runTsgenJob(prog, inst, tier, workers, solver, replayer, verbose)
+				<-pd.done
+				jr = pd.jr
 			default:
 				jr = &jobResult{Name: inst.name, Engine: js.Engine}
 				jr.Problems = append(jr.Problems, symgo.PathResult{Kind: "engine-fault", Msg: "unknown engine"})
@@ -304,7 +331,7 @@ func runCheck(prop, tier string, seed int, only string, workers int, solver stri
 				inconclusive = append(inconclusive, fmt.Sprintf("job %s: reachability witness %q not reached (vacuity guard)", jr.Name, l))
 			}
 			for _, u := range jr.Unconfirmed {
-				inconclusive = append(inconclusive, fmt.Sprintf("job %s: solver model did not reproduce natively (%s)", jr.Name, u))
+				inconclusive = append(inconclusive, fmt.Sprintf("job %s: solver model did not reproduce (%s)", jr.Name, u))
 			}
 			for i := range jr.Confirmed {
 				cv := &jr.Confirmed[i]
@@ -635,12 +662,12 @@ func runReplayCmd(prop, path string) int {
 	}
 	r := &replayer{prop: prop}
 	defer r.cleanup()
+	if len(rf.Schedule) > 0 {
+		return replayTsgen(rf, path)
+	}
 	kind := "violation"
 	if i := strings.Index(rf.Engine, ":"); i > 0 {
 		kind = rf.Engine[:i]
-	}
-	if len(rf.Schedule) > 0 {
-		return replayTsgen(rf, path)
 	}
 	native, ok := r.runNative(rf.Pkg, rf.Harness, path, kind, rf.Assertion)
 	fmt.Printf("native outcome: %s\n", native)
@@ -660,7 +687,7 @@ func writeEvidence(path, prop, tier string, seed int, spec *Spec, results []*job
 	if level == "" {
 		level = "model_checking"
 	}
-	var paths, okPaths, decisions, asserts, queries, sat, unsat, unknown, replays, obligations int
+	var paths, okPaths, decisions, asserts, queries, sat, unsat, unknown, replays, obligations, tsStates, tsTrans int
 	var solverS float64
 	funcs := map[string]int{}
 	stubs := map[string]bool{}
@@ -692,6 +719,12 @@ func writeEvidence(path, prop, tier string, seed int, spec *Spec, results []*job
 					}
 				}
 			}
+			if n, ok := r.Extra["tsgen_states"].(int); ok {
+				tsStates += n
+			}
+			if n, ok := r.Extra["tsgen_transitions"].(int); ok {
+				tsTrans += n
+			}
 			if tr, ok := r.Extra["tsgen_samples"].([]any); ok {
 				for _, s := range tr {
 					if len(samples) < 8 {
@@ -715,11 +748,11 @@ func writeEvidence(path, prop, tier string, seed int, spec *Spec, results []*job
 		stubList = append(stubList, k)
 	}
 	sort.Strings(stubList)
-	states := okPaths
+	states := okPaths + tsStates
 	if states < 1 {
 		states = 1
 	}
-	transitions := decisions
+	transitions := decisions + tsTrans
 	if transitions < 1 {
 		transitions = 1
 	}
